@@ -70,18 +70,22 @@ int c_aggregate(int nval, int operator, int maxnan, int * aggindex,
         if(isnan(inp))
         {
             nagg_nan ++;
-            inp = 0;
         } else
+        {
             nagg ++;
 
-        if(operator<=1) {
-            agg += inp;
-        }
-        else if (operator == 2){
-            agg = inp > agg ? inp : agg;
-        }
-        else if (operator == 3){
-            agg = inp;
+            if(operator<=1) {
+                agg += inp;
+            }
+            else if (operator == 2){
+                /* max of valid values: first valid value of the group
+                 * or a larger one */
+                agg = (nagg == 1 || inp > agg) ? inp : agg;
+            }
+            else if (operator == 3){
+                /* last valid value */
+                agg = inp;
+            }
         }
     }
 
